@@ -111,9 +111,9 @@ func (c *checkCtx) selftest() int {
 	}
 	out := map[string]any{"property": c.ID, "seed": c.Seed, "run_indices": idxs, "processes": 30, "gomaxprocs": []int{1, 4, 16},
 		"diverging_runs": bad, "wall_s": time.Since(t0).Seconds(), "tree": c.Build.TreeHash}
-	os.MkdirAll(filepath.Join(verifDir(), "selftest"), 0o755)
+	os.MkdirAll(filepath.Join(outDir(), "selftest"), 0o755)
 	b, _ := json.MarshalIndent(out, "", " ")
-	os.WriteFile(filepath.Join(verifDir(), "selftest", c.ID+".json"), b, 0o644)
+	os.WriteFile(filepath.Join(outDir(), "selftest", c.ID+".json"), b, 0o644)
 	fmt.Printf("gcsim: selftest %s: %d run indices x 30 processes, %d diverging (%.0fs)\n", c.ID, len(idxs), bad, time.Since(t0).Seconds())
 	if bad > 0 {
 		return 2
